@@ -19,7 +19,4 @@ TgtC == (w1 :> "main")                                  \* main reads and sleeps
 OwnC == ("o1" :> "main") @@ ("s1" :> "main") @@ ("j1" :> "none")
 TgtD == (w1 :> "main") @@ (w2 :> "t1")                  \* two threads (main, t1), t1 reads
 OwnD == ("o1" :> "t1")
-\* liveness of the repaired loop on programs with blocking jobs
-CompletesRepaired == <>(mut # "repaired" \/ Finished)
-JobSeenRepaired == \A j \in Jobs : (mut = "repaired" /\ Owner[j] # "none" /\ jobSt[j] = "running") ~> got[j]
 =============================================================================
